@@ -42,7 +42,7 @@ def cases(tier, seed):
         for state in ("idle", "busy", "backoff" if t == "retry" else "polling" if t == "poll" else "busy"):
             for mode in ("worker", "hook"):
                 out.append({"name": "exit.child/%s/%s/%s" % (t, state, mode), "kind": "exit", "layer": t, "state": state, "mode": mode,
-                            "n": 6 if tier == "quick" else 40})
+                            "n": 6 if tier == "quick" else 400})
         out.append({"name": "shutdown.thread/%s" % t, "kind": "sdthread", "layer": t})
     for t in ALL:
         out.append({"name": "retain.history/%s" % t, "kind": "retain", "layer": t})
